@@ -71,9 +71,9 @@ fn build(spec: &Spec, strtab_base: u64) -> Vec<u8> {
         let t = spec.types[i];
         let name = NAMEIDX[i % NAMEIDX.len()];
         let e = if spec.layout == 40 {
-            bi::enc_shdr32(name, t, 0xABCD_0F00 | ((i as u32 * 3 + 5) & 7), (strtab_base + i as u64) as u32, 0x0000_A100 + i as u32, 0x0000_0311 + 0x111 * i as u32, 0xC1 + i as u32, 0xD1 + i as u32, 0x10 << i, 0xE1 + i as u32)
+            bi::enc_shdr32(name, t, 0xABCD_0F00 | ((i as u32 * 3 + 5) & 7), (strtab_base + i as u64) as u32, 0x0000_A100 + i as u32, 0x0000_0311 + 0x111 * i as u32, (i as u32 + 1) % 3, 0xD1 + i as u32, 0x10 << i, 0xE1 + i as u32)
         } else {
-            bi::enc_shdr64(name, t, 0xABCD_0F0F_0F0F_0F00 | ((i as u64 * 3 + 5) & 7), strtab_base + i as u64, 0x0000_A100_0000_0000 + i as u64, 0x0000_0311_0000_0000 + 0x111 * i as u64, 0xC1 + i as u32, 0xD1 + i as u32, 0x10 << i, 0xE1 + i as u64)
+            bi::enc_shdr64(name, t, 0xABCD_0F0F_0F0F_0F00 | ((i as u64 * 3 + 5) & 7), strtab_base + i as u64, 0x0000_A100_0000_0000 + i as u64, 0x0000_0311_0000_0000 + 0x111 * i as u64, (i as u32 + 1) % 3, 0xD1 + i as u32, 0x10 << i, 0xE1 + i as u64)
         };
         sec[i * stride..(i + 1) * stride].copy_from_slice(&e);
         i += 1;
